@@ -48,7 +48,7 @@ type verifC14Cloud struct {
 	sis   *test.StubInstanceSet
 	quota int
 
-	// Destroyed instances stay in the list for a short while, as on a real cloud. (Without this
+	// Destroyed instances stay in the list for a while, as on a real cloud. (Without this
 	// the pool drops a worker within one sync interval of its destruction, and an SSH handshake
 	// that is still in progress then dereferences the missing worker in
 	// Pool.reportSSHConnected and kills the whole process; see notes/C14.md, observation O2.)
@@ -61,7 +61,7 @@ type verifC14Seen struct {
 	at   time.Time
 }
 
-const verifC14Linger = 3 * time.Second
+const verifC14Linger = 8 * time.Second
 
 func (is verifC14IS) Instances(tags cloud.InstanceTags) ([]cloud.Instance, error) {
 	insts, err := is.InstanceSet.Instances(tags)
